@@ -59,3 +59,44 @@ Theorem C26_explicit_as_given :
   forall o s values cd, exists x, resolve_input o (GPath s) values cd = Ok (ROne x) /\ same_path x s.
 Proof. exact explicit_as_given. Qed.
 Print Assumptions C26_explicit_as_given.
+
+(* deterministic: the resolved path is a function of the job directory and of the values of the fields the
+   template references (the names the code's two regexes find) — no other input can influence it *)
+Theorem C26_deterministic :
+  forall o g v1 v2 cd,
+    (forall n, In n (template_refs o) -> lookup n v1 = lookup n v2) ->
+    resolve_output o v1 cd = resolve_output o v2 cd /\ resolve_input o g v1 cd = resolve_input o g v2 cd.
+Proof. exact resolve_deterministic. Qed.
+Print Assumptions C26_deterministic.
+
+(* keep_extension = False ("dropping as declared"): two input assignments that differ only in the extensions of
+   their path-valued fields resolve to the same path *)
+Theorem C26_ext_dropped :
+  forall o v1 v2 cd, o_keep o = false -> same_up_to_ext v1 v2 -> resolve_output o v1 cd = resolve_output o v2 cd.
+Proof. exact ext_dropped. Qed.
+Print Assumptions C26_ext_dropped.
+
+Example C26_ext_dropped_nontrivial :
+  file_stem_path (la_of "/data/in/x.nii.gz") = file_stem_path (la_of "/data/in/x.txt")
+  /\ resolve_output {| o_multi := false; o_keep := false; o_template := TOne (la_of "{a}_out") |}
+       [(la_of "a", VAtom (APath (la_of "/data/in/x.nii.gz")))] (la_of "/cache/job") = Ok (ROne (la_of "/cache/job/x_out")).
+Proof. split; reflexivity. Qed.
+
+(* keep_extension = True ("keeping as declared"): when the input file has an extension e, the template has no '.'
+   of its own and references the file once, formatting gives the keep_extension = False text followed by "." e *)
+Theorem C26_ext_kept :
+  forall t d n f e,
+    all_word n = true -> n <> [] ->
+    file_ext f = Some e -> has_dot t = false ->
+    (forall ps, tokenize t = Ok ps -> count_field n ps <= 1) ->
+    element_formatting t d (Some (n, f)) true =
+    bind (element_formatting t d (Some (n, f)) false) (fun s => Ok (s ++ "."%char :: e)%list).
+Proof. exact ext_kept. Qed.
+Print Assumptions C26_ext_kept.
+
+Example C26_ext_kept_nontrivial :
+  let t := la_of "pre_{a}" in let n := la_of "a" in let f := la_of "/data/in/x.nii.gz" in
+  all_word n = true /\ file_ext f = Some (la_of "nii.gz") /\ has_dot t = false
+  /\ (exists ps, tokenize t = Ok ps /\ count_field n ps = 1)
+  /\ element_formatting t [] (Some (n, f)) true = Ok (la_of "pre_/data/in/x.nii.gz").
+Proof. repeat split; try reflexivity. eexists. split; reflexivity. Qed.
